@@ -27,7 +27,8 @@ def run_one(base, chk, routine, state, n=None, dup=False):
     prog = base.prog
     path = h.path()
     t0 = time.time()
-    label = "%s[receiver=%s%s%s]" % (routine, state, "" if n is None else ",n=%d" % n, ",points[0]==points[1]" if dup else "")
+    label = "%s[receiver=%s%s%s]" % (routine, state, "" if n is None else ",n=%d" % n,
+                                     {False: "", True: ",points[0]==points[1]", "k": ",scalars[0]==scalars[%d] (same *Scalar)" % ((n or 1) - 1), "kp": ",scalars[0]==scalars[1] and points[0]==points[1]"}[dup])
     fname = prog.find("Point)." + routine)
     chk.used(prog, fname, "group mode (formulas, recoders and selectors replaced by their contracts)")
     if routine == "ScalarMult":
@@ -48,17 +49,21 @@ def run_one(base, chk, routine, state, n=None, dup=False):
     else:
         sc = [h.scalar(path, "k%d" % i) for i in range(n)]
         pts = [h.point(path, "Q%d" % i) for i in range(n)]
-        if dup:
+        if dup is True or dup == "kp":
             pts[1] = pts[0]
+        if dup == "kp":
+            sc[1] = sc[0]
+        if dup == "k":
+            sc[n - 1] = sc[0]
         ss, so = h.ptr_slice(path, [s[0] for s in sc], "Scalar")
         ps_, po = h.ptr_slice(path, pts, "Point")
         v = recv_obj(h, path, "alias" if state == "alias_last" else state, (pts[-1] if state == "alias_last" else pts[0]) if n else None)
         want = {}
         for i in range(n):
-            g = "Q0" if (dup and i == 1) else "Q%d" % i
+            g = "Q0" if (dup in (True, "kp") and i == 1) else "Q%d" % i
             want[g] = LF.of(want.get(g, 0)) + sc[i][1]
         args = [v, ss, ps_]
-        unw = [so, po] + [s[0].obj for s in sc] + [p.obj for p in pts if p != v]
+        unw = [so, po] + sorted({s[0].obj for s in sc}) + sorted({p.obj for p in pts if p != v})
     paths = h.ex.call(fname, args, path)
     h.check_result(label, fname, paths, v, want, t0, unw)
     chk.extra.setdefault("group_mode_stats", {})[label] = dict(h.grp.stats, merges=h.ex.merges, seconds=round(time.time() - t0, 1))
@@ -98,7 +103,12 @@ def run(chk):
         heavy.append(("MultiScalarMult alias_last", lambda: run_one(base, chk, "MultiScalarMult", "alias_last", maxn)))
         heavy.append(("VarTimeMultiScalarMult dup", lambda: run_one(base, chk, "VarTimeMultiScalarMult", "other", 2, True)))
         heavy.append(("MultiScalarMult dup", lambda: run_one(base, chk, "MultiScalarMult", "zero", 2, True)))
+        heavy.append(("VarTimeMultiScalarMult dupk", lambda: run_one(base, chk, "VarTimeMultiScalarMult", "other", 2, "k")))
+        heavy.append(("VarTimeMultiScalarMult dupkp", lambda: run_one(base, chk, "VarTimeMultiScalarMult", "zero", 2, "kp")))
     light = []
+    if maxn >= 2:
+        light.append(("MultiScalarMult dupk", lambda: run_one(base, chk, "MultiScalarMult", "other", maxn, "k")))
+        light.append(("MultiScalarMult dupkp", lambda: run_one(base, chk, "MultiScalarMult", "zero", 2, "kp")))
     for st in ("zero", "identity", "other", "alias"):
         light.append(("ScalarMult " + st, lambda st=st: run_one(base, chk, "ScalarMult", st)))
     for st in ("zero", "identity", "other"):
